@@ -284,6 +284,19 @@ type txrec struct {
 	h, b []byte
 }
 
+// countTag: frames on the wire (all connections) whose body starts with tag
+func countTag(pipes []*vt.Pipe, tag byte) int {
+	n := 0
+	for _, p := range pipes {
+		for _, r := range p.Sent {
+			if len(r.B) >= 1 && r.B[0] == tag {
+				n++
+			}
+		}
+	}
+	return n
+}
+
 func transmissions(pipes []*vt.Pipe, tag byte) []txrec {
 	var out []txrec
 	for _, p := range pipes {
@@ -503,6 +516,35 @@ func VH03b_requeue() {
 		verif.FireTimer()
 	}
 	verif.Quiesce()
+	if verif.Choice("answered-while-waiting-for-retransmission", 2) == 1 {
+		// the reply to A arrives (the stalled peer still writes to us) while A waits to be handed to a connection
+		// again: A is complete - Recv returns the reply - and must not be left in the queue of pending transmissions
+		if p0.Closed {
+			verif.Assume(false)
+		}
+		nA := countTag(pipes, 'A')
+		p0.Deliver([]byte{byte(idA >> 24), byte(idA >> 16), byte(idA >> 8), byte(idA), 'a'})
+		verif.Quiesce()
+		var ma *mangos.Message
+		var ea error
+		ga := verif.Go("recv-A", func() { ma, ea = recv() })
+		verif.Quiesce()
+		verif.Assert(ga.Done() && ea == nil && len(ma.Body) == 1 && ma.Body[0] == 'a', lab+"/reply-not-delivered-while-waiting-for-retransmission")
+		// a connection becomes ready: nothing is left to transmit
+		p0.SendMode = vt.SendOK
+		for i := 0; i < 4; i++ {
+			p0.Release()
+		}
+		pipes = append(pipes, side.Peer("p2"))
+		verif.Quiesce()
+		for i := 0; i < 3; i++ {
+			verif.FireTimer()
+		}
+		verif.Assert(countTag(pipes, 'A') <= nA+1, lab+"/answered-request-transmitted-again")
+		verif.Reach("answered-while-queued")
+		sock.Close()
+		return
+	}
 	var errB error
 	gB := verif.Go("send-B", func() { errB = send([]byte{'B'}) })
 	verif.Quiesce()
